@@ -1,2 +1,165 @@
+"""C05 clauses 3, 4 (layout map, tab offsets) and the finite-domain folds of the
+small pure predicates the decoder relies on (style classification, back-space
+condition, tab-offset window)."""
+import ast
+import re
+from fractions import Fraction
+
+from ..core.tree import AnalysisError
+from ..core.constfold import Folder
+from ..core.astutil import walk_no_nested, call_name, short, src
+from ..engines.symeval import SymEvaluator, Poly, SObj, SNone
+from ..engines.affine import check_affine
+from ..spec import cea608
+
+SPC = "pycaption/scc/specialized_collections.py"
+SM = "pycaption/scc/state_machines.py"
+CONST = "pycaption.scc.constants"
+
+
 def run(ctx, report):
-    report.notes.append("clause 3 pending symeval engine")
+    folder = ctx.memo("folder", lambda: Folder(ctx.index))
+    report.section("layout map", layout_map, ctx, report, folder)
+    report.section("tab offsets", tab_offsets, ctx, report, folder)
+    report.section("style classes", style_classes, ctx, report, folder)
+    report.section("backspace predicate", backspace, ctx, report, folder)
+
+
+def layout_map(ctx, report, folder):
+    fn = ctx.index.get_function(SPC, "_get_layout_from_tuple")
+    report.covered(fn)
+    outs = SymEvaluator(ctx.index, folder).run(fn)
+    vals = [o for o in outs if isinstance(o.value, SObj)]
+    nones = [o for o in outs if isinstance(o.value, SNone)]
+    if len(vals) != 1:
+        raise AnalysisError("_get_layout_from_tuple: expected one value path")
+    lay = vals[0].value
+    org = lay.attrs.get("origin")
+    if not isinstance(org, SObj):
+        raise AnalysisError("_get_layout_from_tuple: no origin")
+    row, col = "$position_tuple[0]", "$position_tuple[1]"
+    sa = cea608.SAFE_AREA
+    xs = Fraction(sa["x1"] - sa["x0"], cea608.SCREEN_COLUMNS)
+    ys = Fraction(sa["y1"] - sa["y0"], cea608.SCREEN_ROWS)
+    x, y = org.attrs["x"], org.attrs["y"]
+    check_affine(report, "R-AFFINE", fn, "x = 10 + 80*column/32 percent", x.attrs["value"],
+                 {col: xs, "": sa["x0"]}, {row, col}, "3")
+    check_affine(report, "R-AFFINE", fn, "y = 5 + 90*(row-1)/15 percent", y.attrs["value"],
+                 {row: ys, "": sa["y0"] - ys}, {row, col}, "3")
+    ux, uy = x.attrs.get("unit"), y.attrs.get("unit")
+    report.check(getattr(ux, "value", None) == "%" and getattr(uy, "value", None) == "%", "R-AFFINE", fn,
+                 "both coordinates are percentages", [str(ux), str(uy)], "3")
+    al = lay.attrs.get("alignment")
+    h = getattr(al.attrs.get("horizontal"), "name", None) if isinstance(al, SObj) else None
+    v = getattr(al.attrs.get("vertical"), "name", None) if isinstance(al, SObj) else None
+    report.check((h, v) == ("LEFT", "TOP"), "R-TABLE-REF", fn, "the origin is the top-left corner of the caption (LEFT/TOP)",
+                 [h, v], "3")
+    report.check(lay.attrs.get("extent") is None or isinstance(lay.attrs.get("extent"), SNone), "R-AFFINE", fn,
+                 "no extent is invented", None, "3")
+
+
+def tab_offsets(ctx, report, folder):
+    tabs = folder.value(CONST, "PAC_TAB_OFFSET_COMMANDS")
+    lo_t, hi_t = min(tabs.values()), max(tabs.values())
+    fn = ctx.index.get_function(SM, "_PositioningTracker.update_positioning")
+    report.covered(fn)
+    win = [n for n in walk_no_nested(fn.node) if isinstance(n, ast.Compare) and len(n.ops) == 2
+           and re.fullmatch(r"col( \+ \d+)?", src(n.left)) and re.fullmatch(r"col \+ \d+", src(n.comparators[1]))]
+    if len(win) != 1:
+        raise AnalysisError("update_positioning: tab-offset window `col + a <= new_col <= col + b` not found")
+    c = win[0]
+    a = int((re.findall(r"\d+", src(c.left)) or ["0"])[0])
+    b = int(re.findall(r"\d+", src(c.comparators[1]))[0])
+    lo = a + (1 if isinstance(c.ops[0], ast.Lt) else 0)
+    hi = b - (1 if isinstance(c.ops[1], ast.Lt) else 0)
+    if not all(isinstance(o, (ast.Lt, ast.LtE)) for o in c.ops):
+        raise AnalysisError("update_positioning: window operators not recognised")
+    report.check((lo, hi) == (lo_t, hi_t), "R-TABLE-SIBLING", (fn, c),
+                 "the tab-offset window covers exactly the offsets of PAC_TAB_OFFSET_COMMANDS",
+                 {"window": src(c), "columns_accepted": [lo, hi], "table_offsets": sorted(tabs.values())}, "4")
+    up = ctx.index.get_function(SPC, "InstructionNodeCreator._update_positioning")
+    report.covered(up)
+    st = [n for n in walk_no_nested(up.node) if isinstance(n, ast.Assign) and src(n.targets[0]) == "positioning"
+          and isinstance(n.value, ast.Tuple)]
+    ok = len(st) == 1 and [src(e) for e in st[0].value.elts] == ["prev_positioning[0]", "prev_positioning[1] + tab_offset"]
+    report.check(ok, "R-AFFINE", up, "a tab offset adds its value to the column of the last address, same row",
+                 [short(s) for s in st], "4")
+    src_def = [n for n in walk_no_nested(up.node) if isinstance(n, ast.Assign) and src(n.targets[0]) == "prev_positioning"]
+    ok = len(src_def) == 1 and src(src_def[0].value) == "self._position_tracer.default"
+    report.check(ok, "R-FIELD-ROUTING", up, "the offset is applied to the most recent preamble address (tracker default)",
+                 [short(s) for s in src_def], "4")
+
+
+def style_classes(ctx, report, folder):
+    fn = ctx.index.get_function(SPC, "InstructionNodeCreator.get_style_for_command")
+    report.covered(fn)
+    style = folder.value(CONST, "STYLE_SETTING_COMMANDS")
+    ital = folder.value(CONST, "ITALICS_COMMANDS")
+    if not isinstance(style, dict) or len(style) < 100:
+        raise AnalysisError("STYLE_SETTING_COMMANDS does not fold to a table of >= 100 codes")
+    ref_pac = cea608.pac_table()
+
+    def is_italic(code):
+        if code in cea608.MIDROW_ITALICS:
+            return True
+        hb, lb = code[:2], code[2:]
+        if hb in ref_pac and lb in ref_pac[hb]:
+            return cea608.pac_attributes(lb)["italics"]
+        return False
+    wrong = []
+    n = 0
+    for code in sorted(style):
+        try:
+            got = folder.call_function(fn, [code])
+        except AnalysisError as e:
+            raise AnalysisError(f"get_style_for_command cannot be folded: {e}")
+        n += 1
+        if (got == "italic") != is_italic(code):
+            wrong.append({"code": code, "classified_as": got, "italics_bit_in_cea608": is_italic(code)})
+    report.check(not wrong, "R-TABLE-REF", fn,
+                 "a style code is classified 'italic' exactly when CEA-608 gives it the italics attribute",
+                 {"codes_folded": n, "misclassified": wrong[:6]}, "1")
+    ref_it = sorted(c for c in style if is_italic(c))
+    report.check(sorted(ital) == ref_it, "R-TABLE-REF", ("pycaption/scc/constants.py", "<module>"),
+                 "ITALICS_COMMANDS is the set of style codes with the italics attribute",
+                 {"found": len(ital), "reference": len(ref_it),
+                  "difference": sorted(set(ital) ^ set(ref_it))[:8]}, "1")
+    report.count("style_codes_folded", n)
+
+
+def backspace(ctx, report, folder):
+    from .c02 import resolve_local
+    fn = ctx.index.get_function(SPC, "InstructionNodeCreator.handle_backspace")
+    report.covered(fn)
+    dels = [n for n in walk_no_nested(fn.node) if isinstance(n, ast.If) and any(
+        isinstance(s, ast.Assign) and src(s.targets[0]).endswith(".text") and "[:-1]" in src(s.value) for s in n.body)]
+    if len(dels) != 1:
+        raise AnalysisError("handle_backspace: the deleting branch was not found")
+    cond = resolve_local(fn, dels[0].test)
+    ext = folder.value(CONST, "EXTENDED_CHARS")
+    ext_code = sorted(ext)[0]
+    wname = fn.params[1]
+    rows = []
+    bad = []
+    for word, wk in (("94a1", "backspace"), (ext_code, "extended"), ("9420", "other")):
+        for last, lk in ((ext[ext_code], "extended"), ("a", "basic")):
+            # `last_char` is node.text[-1]: substitute the subscript by a constant
+            import copy
+
+            class Sub(ast.NodeTransformer):
+                def visit_Subscript(self, node):
+                    if src(node).endswith(".text[-1]"):
+                        return ast.Constant(last)
+                    return self.generic_visit(node)
+            e2 = ast.fix_missing_locations(Sub().visit(copy.deepcopy(cond)))
+            try:
+                got = bool(folder.eval_in(fn.module, e2, {wname: word}))
+            except AnalysisError as e:
+                raise AnalysisError(f"handle_backspace: condition cannot be folded: {e}")
+            want = True if wk == "backspace" else (lk != "extended" if wk == "extended" else False)
+            rows.append({"word": wk, "previous_char": lk, "deletes": got})
+            if got != want:
+                bad.append({"word": wk, "previous_char": lk, "deletes": got, "required": want})
+    report.check(not bad, "R-TRUTH-TABLE", (fn, dels[0]),
+                 "back-space always erases; an extended character erases its stand-in unless that is itself extended",
+                 {"condition": src(cond)[:200], "truth_table": rows, "wrong_rows": bad}, "1")
